@@ -252,9 +252,11 @@ macro_rules! getbulk_step {
 }
 //@ C05,C06 quick | getbulk step: any state, reply of 1 varbind: any OID of 1..3 octets, any of 6 value kinds; result == reference
 getbulk_step!(getbulk_step_1, 1);
-//@ C05,C06 thorough timeout=3000 | getbulk step: any state, reply of 2 varbinds: any OIDs of 1..3 octets, any of 6 value kinds each; result == reference (yield in-subtree increasing data values in order, end marker at first violation)
+// WITHDRAWN (see DESIGN.md section 9): not registered as a check.
+// was: C05,C06 thorough | getbulk step: any state, reply of 2 varbinds: any OIDs of 1..3 octets, any of 6 value kinds each; result == reference (yield in-subtree increasing data values in order, end marker at first violation)
 getbulk_step!(getbulk_step_2, 2);
-//@ C05,C06 thorough timeout=5400 optional | getbulk step: any state, reply of 3 varbinds
+// WITHDRAWN (see DESIGN.md section 9): not registered as a check.
+// was: C05,C06 thorough optional | getbulk step: any state, reply of 3 varbinds
 getbulk_step!(getbulk_step_3, 3);
 
 //@ C05,C06 quick | SnmpOid::precedes(a, b) == arc-wise lexicographic order (harness reference) for ALL a, b of 1..4 content octets (guarantee side of cut S6)
